@@ -1,5 +1,5 @@
 (* C20: stacked flavours compose as byte-stream transformers. *)
-From PV Require Import Base MachineInt DataModel Ser De Cobs CobsRef Crc SerFlavors DeFlavors Sinks Thresholds CrcFacts Cobs Crc SerFlavors ModDecl GenModifiers ModInterp ModFacts StorageDecl GenStorages StorageInterp StorageFacts.
+From PV Require Import Base MachineInt DataModel Ser De Cobs CobsRef Crc SerFlavors DeFlavors Sinks Thresholds CrcFacts Cobs Crc SerFlavors ModDecl GenModifiers ModInterp ModFacts StorageDecl GenStorages StorageInterp StorageFacts SchemaDecl SerEntryDecl GenSerEntry StorageInterp SerEntryInterp SerEntryFacts.
 Open Scope N_scope.
 
 (* checksum-then-COBS: the output is the COBS frame of (plain bytes followed by their
@@ -133,6 +133,35 @@ Theorem C20_storage_impls_define :
    (nm_HVec_IndexMut, [nm_index_mut]); (nm_AllocVec_IndexMut, [nm_index_mut])].
 Proof. exact storage_impls_define. Qed.
 
+(* the serialising entry points are the code of ser/mod.rs (and of the crc module of
+   ser/flavors.rs) as read on this run (GenSerEntry.v): the flavour stack each one builds from its
+   own arguments (Slice::new(buf), HVec::default(), AllocVec::new(), Cobs::try_new(..)?,
+   CrcModifier::new(.., digest), the aliases to_stdvec* and to_*_crc32 resolved through the macro
+   instances), handed to serialize_with_flavor as matched against its template (serialize, then
+   finalize with the error kind read from the source) *)
+Theorem C20_plain_entry_points_are_the_source : forall a v,
+  omap EOSlice (to_slice v (ea_buf a)) = run_entry a v e_to_slice /\
+  omap EOVec (to_vec (ea_cap a) v) = run_entry a v e_to_vec /\
+  omap EOVec (to_allocvec v) = run_entry a v e_to_allocvec /\
+  omap EOVec (to_allocvec v) = run_entry a v e_to_stdvec /\
+  omap EOVec (to_extend v (ea_sink a)) = run_entry a v e_to_extend /\
+  omap EOVec (to_io v (ea_limit a) (ea_flush_fails a)) = run_entry a v e_to_io /\
+  omap EOVec (to_io v (ea_limit a) (ea_flush_fails a)) = run_entry a v e_to_eio /\
+  omap EOSize (serialized_size v) = run_entry a v e_serialized_size.
+Proof. exact plain_entries_are_source. Qed.
+Theorem C20_cobs_entry_points_are_the_source : forall a v,
+  omap EOSlice (to_slice_cobs v (ea_buf a)) = run_entry a v e_to_slice_cobs /\
+  omap EOVec (to_vec_cobs (ea_cap a) v) = run_entry a v e_to_vec_cobs /\
+  omap EOVec (to_allocvec_cobs v) = run_entry a v e_to_allocvec_cobs /\
+  omap EOVec (to_allocvec_cobs v) = run_entry a v e_to_stdvec_cobs.
+Proof. exact cobs_entries_are_source. Qed.
+Theorem C20_crc32_entry_points_are_the_source : forall a v, ea_nb a = 4%nat ->
+  omap EOSlice (to_slice_crc (ea_alg a) 4 v (ea_buf a)) = run_entry a v e_to_slice_crc32 /\
+  omap EOVec (to_vec_crc (ea_alg a) 4 (ea_cap a) v) = run_entry a v e_to_vec_crc32 /\
+  omap EOVec (to_allocvec_crc (ea_alg a) 4 v) = run_entry a v e_to_allocvec_crc32 /\
+  omap EOVec (to_allocvec_crc (ea_alg a) 4 v) = run_entry a v e_to_stdvec_crc32.
+Proof. exact crc32_entries_are_source. Qed.
+
 Print Assumptions C20_crc_inside_cobs.
 Print Assumptions C20_cobs_any_storage.
 Print Assumptions C20_crc_any_storage.
@@ -151,3 +180,6 @@ Print Assumptions C20_size_is_the_source.
 Print Assumptions C20_writers_are_the_source.
 Print Assumptions C20_default_extend_is_the_source.
 Print Assumptions C20_storage_impls_define.
+Print Assumptions C20_plain_entry_points_are_the_source.
+Print Assumptions C20_cobs_entry_points_are_the_source.
+Print Assumptions C20_crc32_entry_points_are_the_source.
